@@ -17,3 +17,6 @@ pub use evidence::{Run, Tier};
 pub use rng::Rng;
 pub mod fmt;
 pub mod embedkit;
+pub mod defgen;
+pub mod fssnap;
+pub mod pki_tsa;
